@@ -1,79 +1,4 @@
-// ---- abstract view of parser::Term and the reference "left-associate every chain, parentheses are
-// atomic" (hand-written from grammar.y and the statement of C07; DESIGN.md 5/C07) -------------------
-
-pub enum PKind {
-    ParseError, Type, Variable(Seq<char>),
-    Lambda(Seq<char>, bool, bool),   // binder name, implicit, has a domain annotation
-    Pi(Seq<char>, bool),
-    App,
-    Let(Seq<char>, bool),            // binder name, has an annotation
-    Integer, Lit(int), Neg,
-    Sum, Difference, Product, Quotient, LessThan, LessThanOrEqualTo, EqualTo, GreaterThan, GreaterThanOrEqualTo,
-    Boolean, True, False, If,
-}
-
-// Source ranges and error lists are erased; names, flags, literals, operand order and the `group`
-// (parenthesised) flag are kept.
-pub struct PTerm {
-    pub kind: PKind,
-    pub group: bool,
-    pub kids: Seq<PTerm>,
-}
-
-spec fn p0() -> Seq<PTerm> { Seq::empty() }
-spec fn p1(a: PTerm) -> Seq<PTerm> { Seq::empty().push(a) }
-spec fn p2(a: PTerm, b: PTerm) -> Seq<PTerm> { Seq::empty().push(a).push(b) }
-spec fn p3(a: PTerm, b: PTerm, c: PTerm) -> Seq<PTerm> { Seq::empty().push(a).push(b).push(c) }
-
-spec fn pkind_of(v: Variant) -> PKind {
-    match v {
-        Variant::ParseError => PKind::ParseError,
-        Variant::Type => PKind::Type,
-        Variant::Variable(x) => PKind::Variable(x@),
-        Variant::Lambda(x, im, d, _) => PKind::Lambda(x.name@, im, d is Some),
-        Variant::Pi(x, im, _, _) => PKind::Pi(x.name@, im),
-        Variant::Application(_, _) => PKind::App,
-        Variant::Let(x, a, _, _) => PKind::Let(x.name@, a is Some),
-        Variant::Integer => PKind::Integer,
-        Variant::IntegerLiteral(b) => PKind::Lit(bigint_val(b)),
-        Variant::Negation(_) => PKind::Neg,
-        Variant::Sum(_, _) => PKind::Sum,
-        Variant::Difference(_, _) => PKind::Difference,
-        Variant::Product(_, _) => PKind::Product,
-        Variant::Quotient(_, _) => PKind::Quotient,
-        Variant::LessThan(_, _) => PKind::LessThan,
-        Variant::LessThanOrEqualTo(_, _) => PKind::LessThanOrEqualTo,
-        Variant::EqualTo(_, _) => PKind::EqualTo,
-        Variant::GreaterThan(_, _) => PKind::GreaterThan,
-        Variant::GreaterThanOrEqualTo(_, _) => PKind::GreaterThanOrEqualTo,
-        Variant::Boolean => PKind::Boolean,
-        Variant::True => PKind::True,
-        Variant::False => PKind::False,
-        Variant::If(_, _, _) => PKind::If,
-    }
-}
-
-spec fn pview(t: Term) -> PTerm
-    decreases t, 1nat
-{
-    PTerm { kind: pkind_of(t.variant), group: t.group, kids: pkids_of(t) }
-}
-
-spec fn pkids_of(t: Term) -> Seq<PTerm>
-    decreases t, 0nat
-{
-    match t.variant {
-        Variant::ParseError | Variant::Type | Variant::Variable(_) | Variant::Integer | Variant::IntegerLiteral(_)
-        | Variant::Boolean | Variant::True | Variant::False => p0(),
-        Variant::Lambda(_, _, d, b) => match d { Some(d) => p2(pview(*d), pview(*b)), None => p1(pview(*b)) },
-        Variant::Let(_, a, d, b) => match a { Some(a) => p3(pview(*a), pview(*d), pview(*b)), None => p2(pview(*d), pview(*b)) },
-        Variant::Pi(_, _, a, b) | Variant::Application(a, b) | Variant::Sum(a, b) | Variant::Difference(a, b)
-        | Variant::Product(a, b) | Variant::Quotient(a, b) | Variant::LessThan(a, b) | Variant::LessThanOrEqualTo(a, b)
-        | Variant::EqualTo(a, b) | Variant::GreaterThan(a, b) | Variant::GreaterThanOrEqualTo(a, b) => p2(pview(*a), pview(*b)),
-        Variant::Negation(a) => p1(pview(*a)),
-        Variant::If(a, b, c) => p3(pview(*a), pview(*b), pview(*c)),
-    }
-}
+// ---- the three re-association classes and the reference "left-associate every chain" (DESIGN.md 5/C07) ----
 
 // The three operator classes whose chains are parsed right-nested and re-associated afterwards.
 pub enum Class { Apps, Muls, Adds }
@@ -92,14 +17,6 @@ spec fn pq_kind(o: ProductOrQuotient) -> PKind {
 
 spec fn sd_kind(o: SumOrDifference) -> PKind {
     match o { SumOrDifference::Sum => PKind::Sum, SumOrDifference::Difference => PKind::Difference }
-}
-
-// [ref:error_check]: the passes are only run on trees without ParseError nodes.
-#[verifier::opaque]
-spec fn no_parse_error(t: PTerm) -> bool
-    decreases t
-{
-    t.kind != PKind::ParseError && forall|i: int| #![trigger t.kids[i]] 0 <= i < t.kids.len() ==> no_parse_error(t.kids[i])
 }
 
 spec fn mk(op: PKind, a: PTerm, b: PTerm) -> PTerm {
